@@ -315,6 +315,12 @@ func (srv *Srv) createPost(req *SrvReq) {
 func (srv *Srv) read(req *SrvReq) {
 	tc := req.Tc
 	fid := req.Fid
+	if tc.Count > req.Conn.Msize {
+		/* also keeps the addition below from wrapping around */
+		req.RespondError(Etoolarge)
+		return
+	}
+
 	if tc.Count+IOHDRSZ > req.Conn.Msize {
 		req.RespondError(Etoolarge)
 		return
@@ -384,6 +390,12 @@ func (srv *Srv) write(req *SrvReq) {
 
 	if !fid.opened || (fid.Type&QTDIR) != 0 || (fid.Omode&3) == OREAD {
 		req.RespondError(Ebaduse)
+		return
+	}
+
+	if tc.Count > req.Conn.Msize {
+		/* also keeps the addition below from wrapping around */
+		req.RespondError(Etoolarge)
 		return
 	}
 
